@@ -124,7 +124,7 @@ let explore_chan p g st0 nw seed runs =
     let st = ref st0 and sched = ref [] and k = ref 0 in
     while not !found && !k < 600 do
       incr k;
-      let t = Random.int (nw + 1) and c = if Random.int 3 = 0 then 1 else 0 in
+      let t = Random.int (nw + 1) and c = (match Random.int 8 with 0 | 1 -> 1 | 2 -> 2 | 3 -> 3 | _ -> 0) in
       (match cstep p g !st (nat_of_int t) (nat_of_int c) with
        | Some (s', _) -> st := s'; sched := (t, c) :: !sched
        | None -> ());
@@ -245,7 +245,7 @@ let handle (lines : string list) : unit =
           Printf.printf "F init 0 cap=%s\n" (string_of_z g.g_cap);
           let step = cstep sc_params g in
           let (st, ok) = accept_trace_w step st0 cell_id
-              (fun op _ _ c -> if op = "casw" && c = 2 then 1 else 0) note_of (none_enabled step (nw + 1)) trace in
+              (fun op _ _ c -> if op = "casw" && c = 2 then 1 else if op = "fwait" && (c = 2 || c = 3) then c else 0) note_of (none_enabled step (nw + 1)) trace in
           if ok then Printf.printf "F acc=%d del=%d wcur=%s rcur=%s\n" (List.length (c_acc st)) (List.length (c_del st))
               (string_of_z (c_wcur st)) (string_of_z (c_rcur st))))
   | "abq" :: cap :: np :: rest ->
